@@ -1100,6 +1100,7 @@ pub fn drive_sync(
     sched: &[Value],
     grace_ms: u64,
     count: bool,
+    auto_release: bool,
 ) {
     let body = move || {
         log(json!({"ev":"begin"}));
@@ -1116,6 +1117,29 @@ pub fn drive_sync(
     let b = if caller_named { b.name("cal".to_string()) } else { b };
     let h = b.spawn(body).unwrap();
     let long = Duration::from_millis(4000);
+    if auto_release {
+        // free-running mode (panic plans: detached threads make arrival sets racy): release every
+        // gate as soon as a thread is parked at it; the trace specification alone is the judge
+        loop {
+            let parked = arrived_unreleased();
+            if let Some(g) = parked.first() {
+                release(*g);
+                continue;
+            }
+            if wait_finished(Duration::from_millis(2)) {
+                break;
+            }
+        }
+        // threads detached by a panic may still run: let them reach their gates and finish their step
+        for _ in 0..40 {
+            std::thread::sleep(Duration::from_millis(1));
+            for g in arrived_unreleased() {
+                release(g);
+            }
+        }
+        let _ = h.join();
+        return;
+    }
     for s in sched {
         let expect = get_i64s(&s["expect"]);
         let gid = s["g"].as_i64().unwrap_or(-1);
@@ -1464,7 +1488,7 @@ pub fn main_loop(table: &[(&str, Prog)]) {
         let auto = r["auto"].as_bool().unwrap_or(true);
         let count = r["count"].as_bool().unwrap_or(false);
         match prog {
-            Prog::Sync(f) => drive_sync(*f, named, &sched, grace, count),
+            Prog::Sync(f) => drive_sync(*f, named, &sched, grace, count, r["auto_release"].as_bool().unwrap_or(false)),
             Prog::Async(f) => drive_async(*f, &sched, auto),
             Prog::Tasks(f) => drive_tasks(*f, &sched, auto),
         }
